@@ -49,8 +49,9 @@ pub fn run(cli: &Cli, rep: &Report) {
     rep.rule(
         "E-enum with a counting global allocator (per-thread current/peak bytes): (1) LZMAOptions::get_memory_usage vs the peak of construct -> write 64 KiB -> finish for LZMAWriter (all 25 lc/lp pairs with lc<=8, lp<=4) \
          and LZMA2Writer (15 pairs with lc+lp<=4) x dict in {4 KiB,64 KiB,1 MiB,8 MiB(,64 MiB)} x mode x finder; (2) lzma_get_memory_usage(_by_props) for LZMAReader and lzma2_get_memory_usage for LZMA2Reader over the same \
-         parameters while decoding a real stream; oracle: peak <= estimate*1024 and estimate*1024 <= 4*peak + 1 MiB; (3) every .lzma header from props 0..=224 x dict set x limits {0, need-1, need, need+1, u32::MAX}: \
-         new_mem_limit fails with OutOfMemory iff limit < need, having allocated < 4 KiB; non-trivial = a case whose estimate passed both bounds / a limit that was enforced",
+         parameters while decoding a real stream; oracle: peak <= estimate*1024 and estimate*1024 <= 4*peak + 1 MiB; (3) every .lzma header from props 0..=224 x dict set x declared size {unknown, 0, 1, 4096, dict, 2^32, 2^40+4096, 2^64-2} x limits {0, need-1, need, need+1, u32::MAX}: \
+         new_mem_limit fails with OutOfMemory, having allocated < 4 KiB, whenever limit < need (a declared size below the dictionary size may instead succeed with a smaller dictionary), succeeds whenever limit >= need, \
+         and a reader that was created never allocated more than its limit; non-trivial = a case whose estimate passed both bounds / a limit that was enforced",
     );
     rep.assumption("the constant 4 (+1 MiB) is this check's reading of 'small constant factor'; peak is measured per thread, each case runs on one thread");
     let input = gen::build(&[Seg::C(65536)], 1);
@@ -217,7 +218,7 @@ pub fn run(cli: &Cli, rep: &Report) {
     for props in [225u8, 255] {
         lcases.push((props, 4096));
     }
-    rep.extra("limit_cases", json!(lcases.len() * 5));
+    rep.extra("limit_cases", json!(lcases.len() * 5 * 8));
     par_for_with(
         lcases.len(),
         0,
@@ -225,22 +226,28 @@ pub fn run(cli: &Cli, rep: &Report) {
         |st, i| {
             let (props, dict) = lcases[i];
             let need = lzma_get_memory_usage_by_props(dict, props).ok();
-            let mut header = vec![props];
-            header.extend_from_slice(&dict.to_le_bytes());
-            header.extend_from_slice(&u64::MAX.to_le_bytes());
-            header.extend_from_slice(&[0, 0, 0, 0, 0]); // range coder init bytes
             let limits: Vec<u32> = match need {
                 Some(n) => vec![0, n.saturating_sub(1), n, n.saturating_add(1), u32::MAX],
                 None => vec![0, u32::MAX],
             };
-            for limit in limits {
-                let desc = || format!("C17|limit|props{}|dict{}|limit{}", props, dict, limit);
+            // the declared uncompressed size is a header field too: unknown, smaller than the dictionary, and values
+            // whose low 32 bits are small
+            let sizes: [u64; 8] = [u64::MAX, 0, 1, 4096, dict as u64, 1 << 32, (1 << 40) + 4096, u64::MAX - 1];
+            for (limit, size) in limits.iter().flat_map(|l| sizes.iter().map(move |s| (*l, *s))) {
+                let mut header = vec![props];
+                header.extend_from_slice(&dict.to_le_bytes());
+                header.extend_from_slice(&size.to_le_bytes());
+                header.extend_from_slice(&[0, 0, 0, 0, 0]); // range coder init bytes
+                let desc = || format!("C17|limit|props{}|dict{}|size{}|limit{}", props, dict, size, limit);
                 if !cli.selected_with(desc) {
                     continue;
                 }
                 st.0 += 1;
+                // A reader may legitimately use a smaller dictionary for a stream that declares fewer bytes than its
+                // dictionary size; then only "what was allocated fits the limit" is demanded (below).
+                let may_shrink = size < dict as u64;
                 let must_fail = match need {
-                    Some(n) => limit < n,
+                    Some(n) => limit < n && !may_shrink,
                     None => true, // invalid props / dictionary: any error will do
                 };
                 // do not really allocate gigabytes when the limit allows it
@@ -271,7 +278,17 @@ pub fn run(cli: &Cli, rep: &Report) {
                                 }
                             }
                         } else if let Err(k) = res {
-                            mk("limit-too-strict", "reader refused although the limit covers the estimate", format!("need {need:?} limit {limit}: {k:?}"));
+                            if need.is_some_and(|n| limit >= n) {
+                                mk("limit-too-strict", "reader refused although the limit covers the estimate", format!("need {need:?} limit {limit}: {k:?}"));
+                            } else if k != std::io::ErrorKind::OutOfMemory {
+                                mk("wrong-error-kind", "limit exceeded but the error is not OutOfMemory", format!("{k:?}"));
+                            } else if peak >= 4096 {
+                                mk("allocated-before-failing", "memory was allocated before the limit was checked", format!("{peak} bytes"));
+                            } else {
+                                st.1.push(hash_desc(&desc()));
+                            }
+                        } else if (peak as u64) > (limit as u64) * 1024 + 4096 {
+                            mk("limit-not-enforced", "reader created under a limit and allocated more than the limit", format!("limit {limit} KiB, peak heap during construction {peak} bytes"));
                         } else {
                             st.1.push(hash_desc(&desc()));
                         }
